@@ -371,7 +371,8 @@ class Model:
       multiset (not counted, always applied).
     * ``unauth_cap`` -- UNAUTHENTICATE may be refused if the capability was
       not advertised.
-    * before authentication a refusal may be NO or BYE (``preauth_bye``).
+    * before authentication a refusal may be NO or BYE (``preauth_bye``); a
+      failed or cancelled AUTHENTICATE may likewise be answered NO or BYE.
     """
 
     def __init__(self, users: Iterable[str]) -> None:
@@ -732,7 +733,7 @@ _MARKER_TAIL = re.compile(rb'\{\d+\+\}$')
 
 class LogCapture(logging.Handler):
     def __init__(self) -> None:
-        super().__init__(level=logging.WARNING)
+        super().__init__(level=logging.ERROR)
         self.records: list[str] = []
 
     def emit(self, record: logging.LogRecord) -> None:
@@ -1310,6 +1311,8 @@ class Run:
 
     async def step(self, c: SieveConn, kind: str,
                    cmd: dict[str, Any] | None = None) -> None:
+        if c.gone or c.dead:
+            raise RuntimeError('harness: step on a dead connection')
         cmd = cmd or self.build(c, kind)
         users = list(self.model.stores)
         before = self.glass()
@@ -1460,11 +1463,12 @@ class Run:
         fl = cmd['flavour']
         self.count('authenticate_' + fl)
         offered = (c.caps.get(b'SASL') or b'').upper().split()
-        if cond == 'BYE':
+        if cond == 'BYE' and fl not in ('bad', 'cancel'):
             self.report('c06-bye-on-authenticate', '%s answered %s' % (
                 where, resp.brief()))
             raise Stop()
         if fl in ('bad', 'cancel'):
+            # NO, or BYE (a server may hang up on failed authentication)
             if cond == 'OK':
                 self.aborted = 'other-property:authenticate-%s-accepted' % fl
                 self.report('authenticate-%s-credentials-answered-OK' % fl,
@@ -1562,10 +1566,10 @@ class Run:
                     'who': who, 'authz': '', 'flavour': 'good',
                     'desc': 'AUTHENTICATE PLAIN authc=%r (prelude)' % who})
                 for _ in range(rng.randint(1, 2)):
-                    if c.user is None:
+                    if c.user is None or c.gone:
                         break
                     await self.step(c, 'PUTSCRIPT')
-                if c.user is not None and rng.random() < 0.6:
+                if c.user is not None and not c.gone and rng.random() < 0.6:
                     await self.step(c, 'SETACTIVE')
         for _ in range(spec['len']):
             i = rng.randrange(2)
@@ -1630,7 +1634,8 @@ class Run:
         await self.step(c, 'GETSCRIPT', {
             'name': name, 'wire': b'GETSCRIPT {5+}\r\na{3+}\r\n',
             'last': b'a{3+}', 'desc': "GETSCRIPT 'a{3+}' (literal)"})
-        await self.step(c, 'NOOP', {'wire': b'NOOP\r\n', 'desc': 'NOOP'})
+        if not c.gone:
+            await self.step(c, 'NOOP', {'wire': b'NOOP\r\n', 'desc': 'NOOP'})
         await self.audit('script')
 
     async def script_literal_tail_script(self) -> None:
@@ -1645,7 +1650,8 @@ class Run:
             'script': s, 'validity': 'unclear',
             'wire': b'CHECKSCRIPT {%d+}\r\n' % len(s) + s + b'\r\n',
             'last': s, 'desc': 'CHECKSCRIPT <keep; # {5+}>'})
-        await self.step(c, 'NOOP', {'wire': b'NOOP\r\n', 'desc': 'NOOP'})
+        if not c.gone:
+            await self.step(c, 'NOOP', {'wire': b'NOOP\r\n', 'desc': 'NOOP'})
 
     async def script_gate(self) -> None:
         """Authenticate, store, UNAUTHENTICATE: every script command is
@@ -1689,6 +1695,19 @@ class Run:
         await self.audit('script')
 
 
+    async def script_auth_cancel(self) -> None:
+        """SASL exchange cancelled by the client with "*" (RFC 5804 2.1): the
+        answer must be NO and the server must not treat it as an internal
+        error; the gate stays closed."""
+        await self.setup()
+        c = await self.fresh(0)
+        await self.step(c, 'AUTHENTICATE', {
+            'wire': b'AUTHENTICATE "PLAIN"\r\n', 'follow': [b'"*"\r\n'],
+            'who': 'alice', 'authz': '', 'flavour': 'cancel',
+            'desc': 'AUTHENTICATE PLAIN (continuation, cancelled with "*")'})
+        await self.step(c, 'LISTSCRIPTS', {'wire': b'LISTSCRIPTS\r\n',
+                                           'desc': 'LISTSCRIPTS'})
+
     async def script_eof_zero_literal(self) -> None:
         """Client disconnects right after a line ending in ``{0+}``."""
         await self.setup()
@@ -1701,6 +1720,7 @@ class Run:
 
 SCRIPTS = {'put-invalid': Run.script_put_invalid,
            'eof-after-zero-literal': Run.script_eof_zero_literal,
+           'auth-cancel': Run.script_auth_cancel,
            'literal-tail-name': Run.script_literal_tail,
            'literal-tail-script': Run.script_literal_tail_script,
            'gate': Run.script_gate}
@@ -1737,13 +1757,13 @@ class C19(Check):
         'glass box = FilterSet._filters/_active of config.set_cache (dict); '
         'if these internals are renamed the gate falls back to protocol-level '
         'evidence only and glass_unavailable is counted']
-    floors = {'commands_checked': 4000, 'preauth_refusals_checked': 500,
-              'payload_comparisons': 1500, 'cross_user_list_checks': 500,
-              'preauth_snapshots_compared': 500}
+    floors = {'commands_checked': 10000, 'preauth_refusals_checked': 1000,
+              'payload_comparisons': 3000, 'cross_user_list_checks': 1500,
+              'audits': 500}
     time_cap = {'quick': 60.0, 'thorough': 600.0}
 
     def cases(self, tier: str, seed: int) -> Iterable[dict[str, Any]]:
-        n = 2000 if tier == 'quick' else 60000
+        n = 8000 if tier == 'quick' else 120000
         rng = random.Random(seed * 7919 + 19)
         for i in range(n):
             yield {'seed': seed * 1_000_003 + i,
